@@ -12,7 +12,7 @@ a symbolic construction leaves the log, the registry and the class's __init__ ca
 from __future__ import annotations
 
 import eqlmc  # noqa: F401
-from entity_query_language import (an, the, entity, let, infer, symbolic_mode, rule_mode, MultipleSolutionFound,
+from entity_query_language import (an, the, entity, let, infer, symbolic_mode, rule_mode, MultipleSolutionFound, and_, or_, not_,
                                    NoSolutionFound)
 from entity_query_language.symbolic import SymbolicExpression
 
@@ -50,6 +50,9 @@ DECL = {"DB": "Base", "DS": "Sub", "DH": "Hand", "DU": "USub", "DD": "Dflt", "D0
         "DHt": "Hand",                   # DHt: the(entity(let(Hand))): NoSolutionFound / the instance / MultipleSolutionFound
         "DRh": "Hand",
         "DHa": "Hand"}                   # DHa: an(entity(v.k)) - only an ATTRIBUTE of the no-domain variable is selected                   # DRh: a rule whose HEAD (only) mentions a no-domain variable: Made(a=x, b=let(Hand))
+# declarations of the @conds family only (a no-domain variable that SEVERAL conditions mention)
+DECL2 = {"DBcc": "Base", "DBo": "Base", "DBn": "Base"}
+DECL.update(DECL2)
 SYMB = ("YB", "YH", "YS")
 MAX_Q = 2
 
@@ -62,7 +65,7 @@ def enabled(st):
     nq, _ = st
     ops = list(KONS) + list(SYMB) + ["R", "C"]
     if nq < MAX_Q:
-        ops += list(DECL)
+        ops += [d for d in DECL if d not in DECL2]
     ops += [f"E{i}" for i in range(1, nq + 1)]
     return ops
 
@@ -70,6 +73,16 @@ def enabled(st):
 def step(st, op):
     nq, n = st
     return (nq + (1 if op in DECL else 0), n + 1)
+
+
+def c_enabled(st):
+    """the @conds family: a small alphabet of its own around queries whose variable is mentioned by several conditions"""
+    nq, _ = st
+    ops = ["KB", "KS", "KO", "C", "R"]
+    if nq < MAX_Q:
+        ops += list(DECL2) + ["DBc"]
+    ops += [f"E{i}" for i in range(1, nq + 1)]
+    return ops
 
 
 def bounds(tier):
@@ -166,6 +179,10 @@ def cases(tier, inst):
     for h in histories(f_initial(), f_enabled, f_step, 4 if tier == "quick" else 5):
         if h and h[-1][0] == "E" and "KX" in h:
             yield ("@failed",) + h
+    # a no-domain variable that several conditions mention (a conjunction, a disjunction, a negated disjunction)
+    for h in histories(initial(), c_enabled, step, d + 1):
+        if h and h[-1][0] == "E" and any(o in DECL2 for o in h) and sum(1 for o in h if o[0] == "E") >= 2:
+            yield ("@conds",) + h
     # the same histories, two levels shallower, with the result cache DISABLED for the whole history (the registry of
     # instances is not a result cache: constructions must be registered all the same)
     for h in histories(initial(), enabled, step, d - 2):
@@ -372,6 +389,8 @@ def run_case(hist, inst):
     caching = True
     if hist and hist[0] == "@nocache":
         caching, hist = False, hist[1:]
+    if hist and hist[0] == "@conds":
+        hist = hist[1:]
 
     def body():
         log = []
@@ -436,6 +455,12 @@ def run_case(hist, inst):
                         v = let(cls)
                         with symbolic_mode():
                             q = an(entity(v, v.k >= 0))
+                    elif op in DECL2:                     # conditions that every instance satisfies, all mentioning v
+                        v = let(cls)
+                        with symbolic_mode():
+                            q = an(entity(v, {"DBcc": lambda: and_(v.k >= 0, v.v >= 0),
+                                              "DBo": lambda: or_(v.k < 0, v.v >= 0),
+                                              "DBn": lambda: not_(or_(v.k < 0, v.v < 0))}[op]()))
                     elif op == "DSk":                     # Sub(v=7): every Sub is constructed with the default v
                         with symbolic_mode():
                             q = an(entity(cls(v=7)))
@@ -592,6 +617,9 @@ def describe(hist, inst):
                 "# expected at M<i>: no exception; first + rest without repetition, all of the type, all live at some time since "
                 "P<i>; everything that was live at P<i> (unless the registry was cleared in between)")
     pre = ""
+    if hist and hist[0] == "@conds":
+        pre, hist = ("# DBcc=an(entity(v := let(Base), and_(v.k >= 0, v.v >= 0))) DBo=... or_(v.k < 0, v.v >= 0) "
+                     "DBn=... not_(or_(v.k < 0, v.v < 0))\n"), hist[1:]
     if hist and hist[0] == "@nocache":
         pre, hist = "disable_caching()   # for the whole history\n", hist[1:]
     return (pre + f"history: {' ; '.join(hist)}\n# {LEGEND}\n# expected at every E<i>: exactly the instances of the type "
